@@ -17,42 +17,44 @@ Arguments index_arg : simpl never.
 Arguments i32_atom : simpl never.
 Arguments check_cost : simpl never.
 
-Ltac nf := rewrite ?no_flags_ncm, ?no_flags_limits, ?no_flags_malachite, ?no_flags_disable in *.
-
 Section Ops.
-  Variable ad : ref_adapters.
+  (* any flag set without NEW_COST_MODEL, LIMITS, MALACHITE, DISABLE_OP: the empty one, and the
+     one operators see inside a softfork guard of extension 1 (keccak enabled) *)
+  Variable fl : flagset.
+  Hypothesis Hfl : plain_flags fl.
+  Ltac nf := rewrite ?(pf_ncm _ Hfl), ?(pf_lim _ Hfl), ?(pf_mal _ Hfl), ?(pf_dis _ Hfl) in *.
 
-  Lemma if_agrees args M : agrees (op_if no_flags args M) (ref_if (items args)).
+  Lemma if_agrees args M : agrees (op_if fl args M) (ref_if (items args)).
   Proof.
     unfold op_if, ref_if. nf. rewrite get_args3_items.
     destruct (items args) as [|c [|a [|b [|d l]]]]; cbn; eauto.
   Qed.
 
-  Lemma cons_agrees args M : agrees (op_cons no_flags args M) (ref_cons (items args)).
+  Lemma cons_agrees args M : agrees (op_cons fl args M) (ref_cons (items args)).
   Proof.
     unfold op_cons, ref_cons. rewrite get_args2_items.
     destruct (items args) as [|a [|b [|d l]]]; cbn; eauto.
   Qed.
 
-  Lemma first_agrees args M : agrees (op_first no_flags args M) (ref_first (items args)).
+  Lemma first_agrees args M : agrees (op_first fl args M) (ref_first (items args)).
   Proof.
     unfold op_first, ref_first. rewrite get_args1_items.
     destruct (items args) as [|a [|d l]]; cbn; eauto; destruct a; cbn; eauto.
   Qed.
 
-  Lemma rest_agrees args M : agrees (op_rest no_flags args M) (ref_rest (items args)).
+  Lemma rest_agrees args M : agrees (op_rest fl args M) (ref_rest (items args)).
   Proof.
     unfold op_rest, ref_rest. rewrite get_args1_items.
     destruct (items args) as [|a [|d l]]; cbn; eauto; destruct a; cbn; eauto.
   Qed.
 
-  Lemma listp_agrees args M : agrees (op_listp no_flags args M) (ref_listp (items args)).
+  Lemma listp_agrees args M : agrees (op_listp fl args M) (ref_listp (items args)).
   Proof.
     unfold op_listp, ref_listp. nf. rewrite get_args1_items.
     destruct (items args) as [|a [|d l]]; cbn; eauto; destruct a; cbn; eauto.
   Qed.
 
-  Lemma eq_agrees args M : agrees (op_eq no_flags args M) (ref_eq (items args)).
+  Lemma eq_agrees args M : agrees (op_eq fl args M) (ref_eq (items args)).
   Proof.
     unfold op_eq, ref_eq. rewrite get_args2_items.
     destruct (items args) as [|a [|b [|d l]]]; cbn; eauto;
@@ -61,7 +63,7 @@ Section Ops.
     apply ok2; [lia|]. destruct (lex_cmp x y); reflexivity.
   Qed.
 
-  Lemma gr_bytes_agrees args M : agrees (op_gr_bytes no_flags args M) (ref_gr_bytes (items args)).
+  Lemma gr_bytes_agrees args M : agrees (op_gr_bytes fl args M) (ref_gr_bytes (items args)).
   Proof.
     unfold op_gr_bytes, ref_gr_bytes. rewrite get_args2_items.
     destruct (items args) as [|a [|b [|d l]]]; cbn; eauto;
@@ -70,7 +72,7 @@ Section Ops.
     apply ok2; [lia|]. destruct (lex_cmp x y); reflexivity.
   Qed.
 
-  Lemma gr_agrees args M : agrees (op_gr no_flags args M) (ref_gr (items args)).
+  Lemma gr_agrees args M : agrees (op_gr fl args M) (ref_gr (items args)).
   Proof.
     unfold op_gr, ref_gr. nf. rewrite get_args2_items.
     destruct (items args) as [|a [|b [|d l]]]; cbn; eauto;
@@ -79,7 +81,7 @@ Section Ops.
     apply ok2; [lia|]. destruct (int_of_bytes y <? int_of_bytes x)%Z; reflexivity.
   Qed.
 
-  Lemma strlen_agrees args M : agrees (op_strlen no_flags args M) (ref_strlen (items args)).
+  Lemma strlen_agrees args M : agrees (op_strlen fl args M) (ref_strlen (items args)).
   Proof.
     unfold op_strlen, ref_strlen. rewrite get_args1_items.
     destruct (items args) as [|a [|d l]]; cbn; eauto; destruct a as [x|]; cbn; eauto.
@@ -88,7 +90,7 @@ Section Ops.
     apply ok2; [lia|reflexivity].
   Qed.
 
-  Lemma lognot_agrees args M : agrees (op_lognot no_flags args M) (ref_lognot (items args)).
+  Lemma lognot_agrees args M : agrees (op_lognot fl args M) (ref_lognot (items args)).
   Proof.
     unfold op_lognot, ref_lognot. rewrite get_args1_items.
     destruct (items args) as [|a [|d l]]; cbn; eauto; destruct a as [x|]; cbn; eauto.
@@ -98,7 +100,7 @@ Section Ops.
     apply ok2; [lia|reflexivity].
   Qed.
 
-  Lemma not_agrees args M : agrees (op_not no_flags args M) (ref_not (items args)).
+  Lemma not_agrees args M : agrees (op_not fl args M) (ref_not (items args)).
   Proof.
     unfold op_not, ref_not. rewrite get_args1_items.
     destruct (items args) as [|a [|d l]]; cbn; eauto.
@@ -122,7 +124,7 @@ Section Ops.
   Qed.
 
   Lemma any_agrees args M : covers M (ref_any (items args)) ->
-    agrees (op_any no_flags args M) (ref_any (items args)).
+    agrees (op_any fl args M) (ref_any (items args)).
   Proof.
     intros HM. apply covers_ok in HM. unfold rc_bool_base, rc_bool_per_arg in HM.
     unfold op_any, ref_any, BOOL_BASE_COST. rewrite bool_loop_closed by lia. cbn.
@@ -130,7 +132,7 @@ Section Ops.
   Qed.
 
   Lemma all_agrees args M : covers M (ref_all (items args)) ->
-    agrees (op_all no_flags args M) (ref_all (items args)).
+    agrees (op_all fl args M) (ref_all (items args)).
   Proof.
     intros HM. apply covers_ok in HM. unfold rc_bool_base, rc_bool_per_arg in HM.
     unfold op_all, ref_all, BOOL_BASE_COST. rewrite bool_loop_closed by lia. cbn.
@@ -154,7 +156,7 @@ Section Ops.
   Lemma shift_range a1 : ((a1 <? -65535) || (65535 <? a1))%Z = (65535 <? Z.abs a1)%Z.
   Proof. lia. Qed.
 
-  Lemma ash_agrees args M : agrees (op_ash no_flags args M) (ref_ash (items args)).
+  Lemma ash_agrees args M : agrees (op_ash fl args M) (ref_ash (items args)).
   Proof.
     unfold op_ash, ref_ash. rewrite get_args2_items.
     destruct (items args) as [|a [|b [|d l]]]; cbn; eauto; destruct a as [x|]; cbn; eauto.
@@ -166,7 +168,7 @@ Section Ops.
     apply ok2; [lia|reflexivity].
   Qed.
 
-  Lemma lsh_agrees args M : agrees (op_lsh no_flags args M) (ref_lsh (items args)).
+  Lemma lsh_agrees args M : agrees (op_lsh fl args M) (ref_lsh (items args)).
   Proof.
     unfold op_lsh, ref_lsh. rewrite get_args2_items.
     destruct (items args) as [|a [|b [|d l]]]; cbn; eauto; destruct a as [x|]; cbn; eauto.
@@ -180,7 +182,7 @@ Section Ops.
 
   (* / and divmod: the only operators of this file that read the budget (one check_cost) *)
   Lemma div_agrees args M : covers M (ref_div current_adapters (items args)) ->
-    agrees (op_div no_flags args M) (ref_div current_adapters (items args)).
+    agrees (op_div fl args M) (ref_div current_adapters (items args)).
   Proof.
     intros HM. unfold op_div. nf. unfold op_div_num, ref_div in *. nf. rewrite get_args2_items.
     destruct (items args) as [|a [|b [|d l]]]; cbn; eauto;
@@ -196,7 +198,7 @@ Section Ops.
   Qed.
 
   Lemma divmod_agrees args M : covers M (ref_divmod (items args)) ->
-    agrees (op_divmod no_flags args M) (ref_divmod (items args)).
+    agrees (op_divmod fl args M) (ref_divmod (items args)).
   Proof.
     intros HM. unfold op_divmod. nf. unfold op_divmod_num, ref_divmod in *. nf. rewrite get_args2_items.
     destruct (items args) as [|a [|b [|d l]]]; cbn; eauto;
@@ -241,7 +243,7 @@ Section Ops.
 
   Lemma substr_agrees args M :
     (forall b, In (Atom b) (items args) -> blen b < 2147483648) ->
-    agrees (op_substr no_flags args M) (ref_substr (items args)).
+    agrees (op_substr fl args M) (ref_substr (items args)).
   Proof.
     intros Hsz. unfold op_substr, ref_substr. nf. rewrite get_varargs_items.
     destruct (items args) as [|a [|st [|en [|d l]]]]; cbn; unfold bad_arg, fail; eauto.
